@@ -45,6 +45,24 @@ def check(ctx, rep):
         rep.ob('create.only-when-allowed', 'a name is created only on the create path', fl.knows(c, 'create', True), '', ctx.where(c))
         rep.ob('create.legal-name-checked', 'the created name passed dos_is_legal_name', fl.knows(c, 'not dos_is_legal_name(norm_name)', False) or
                fl.knows(c, 'dos_is_legal_name(norm_name)', True), 'legality test does not dominate the create path', ctx.where(c))
+    # between the user's name and the legality test the name may only lose a *single* trailing dot (the
+    # GW-BASIC "NAME." == "NAME" rule): any other shortening turns illegal names (A.B., A..) into legal ones
+    cuts = [a for a in own_nodes(gn) if isinstance(a, ast.Assign) and norm(a.targets[0]) == 'dos_name' and isinstance(a.value, ast.Subscript)
+            and norm(a.value.value) == 'dos_name' and isinstance(a.value.slice, ast.Slice)]
+    for a in cuts:
+        facts = set()
+        for f in fl.facts(a):
+            if f.pol:
+                facts |= set(x.strip() for x in f.text.split(' and '))
+        # facts are killed by the re-assignment itself; take them at the enclosing block
+        p_ = a._parent
+        if isinstance(p_, ast.If) and a in p_.body:
+            t = p_.test
+            facts |= set(norm(v) for v in (t.values if isinstance(t, ast.BoolOp) and isinstance(t.op, ast.And) else [t]))
+        ok = norm(a.value.slice) in (':-1',) and "b'.' not in dos_name[:-1]" in facts and ("dos_name[-1:] == b'.'" in facts or "dos_name.endswith(b'.')" in facts)
+        rep.ob('illegal.only-single-trailing-dot-dropped', 'the name is shortened before the legality test only by one trailing dot of a name with no other dot', ok,
+               'shortened under %s: names such as A.B. or A.. lose their illegal trailing dot and are accepted' % sorted(facts), ctx.where(a))
+    rep.floor('illegal.only-single-trailing-dot-dropped', len(cuts), 1, 'shortenings of the user name')
     nn = [a for a in own_nodes(gn) if isinstance(a, ast.Assign) and norm(a.targets[0]) == 'norm_name']
     rep.ob('create.normalised-name', 'norm_name = dos_normalise_name(dos_name)', len(nn) == 1 and norm(nn[0].value) == 'dos_normalise_name(dos_name)', '', ctx.where(gn))
     bad = [n for n in own_nodes(gn) if isinstance(n, ast.If) and norm(n.test) == 'not dos_is_legal_name(norm_name)']
@@ -127,6 +145,8 @@ def variants(ctx):
         return lambda tree: f(mu.find_def(tree, f_name))
 
     return [
+        Va('any-trailing-dot-dropped', 'break', DISK,
+           in_fn('DiskDevice._get_native_name', lambda fn: mu.replace_expr(fn, mu.text_is("dos_name[-1:] == b'.' and b'.' not in dos_name[:-1]"), "dos_name.endswith(b'.')")), expect='illegal.only-single'),
         Va('created-name-not-normalised', 'break', DISK,
            in_fn('DiskDevice._get_native_name', lambda fn: mu.replace_expr(fn, mu.text_is("norm_name.decode('ascii', errors='replace')"), "dos_name.decode('ascii', errors='replace')")),
            expect='create'),
